@@ -13,7 +13,7 @@ worker() {
     for id in "${ids[@]}"; do
         if [ $((i % n)) -eq "$w" ]; then
             checks=$(python3 -c "import json;print(' '.join(json.load(open('/verif/seeded/$id/meta.json'))['checks_run']))")
-            /verif/tools/slot.sh "s$w" "/verif/seeded/$id/patch.diff" $checks 2>&1 | sed "s/^SLOT s$w/DETECT $id/" > "/verif/seeded/$id/detection.txt.new"
+            /verif/tools/slot.sh "s$((w + ${SLOT_BASE:-0}))" "/verif/seeded/$id/patch.diff" $checks 2>&1 | sed "s/^SLOT s$((w + ${SLOT_BASE:-0}))/DETECT $id/" > "/verif/seeded/$id/detection.txt.new"
             mv "/verif/seeded/$id/detection.txt.new" "/verif/seeded/$id/detection.txt"
             echo "$(date +%H:%M:%S) done $id: $(tr '\n' ';' < /verif/seeded/$id/detection.txt | cut -c1-200)"
         fi
